@@ -321,6 +321,9 @@ def special_stream():
         "pd.Series(['2020', '2021'])", "pd.Series(['01', '02'])", "pd.Series(['1_0'])", "pd.Series(['nan', '1.5'])", "pd.Series(['inf'])",
         "pd.Series(['True', 'yes'])", "pd.Series(['nan', 'NaN'])", "pd.Series(['nan'])", "pd.Series(['NaN', None])", "pd.Series(['-nan', 'nan', 'nan'])",
         "pd.Series(['NaT', 'NaT'])", "pd.Series(['inf', '-inf'])", "pd.Series(['nan', 'nan'], dtype=object)", "pd.Series(['nan', '1'])", "pd.Series(['NaT', '2020-01-01'])", "pd.Series([''])", "pd.Series(['', 'a'])", "pd.Series([' '])", "pd.Series(['\\x00'])",
+        "pd.Series(['0000-01-01'])", "pd.Series(['-2020-01-01', '2020-01-01'])", "pd.Series([1.0, False, None], dtype=object)", "pd.Series([True, 0, None], dtype=object)",
+        "pd.Series([np.bool_(True), np.float32(0), None], dtype=object)", "pd.Series(pd.arrays.SparseArray([pd.Timestamp('2020-01-01'), pd.NaT]))",
+        "pd.Series([datetime.date(2020, 1, 1), None], dtype='date32[pyarrow]')", "pd.Series([pd.Timestamp('2020-01-01'), None], dtype='timestamp[us][pyarrow]')",
         "pd.Series([pathlib.Path('/' + 'a' * 5000)])", "pd.Series([pathlib.Path('/tmp'), pathlib.Path('/' + 'b' * 300)])",
         "pd.Series([pd.Timestamp('2018-11-04 12:00', tz='America/Sao_Paulo')])", "pd.Series([pd.Timestamp('2018-11-05', tz='America/Sao_Paulo'), pd.NaT])",
         "pd.Series(['2021-03-01', '', None, '2021-03-02'])", "pd.Series(['1', 'nan', None, '2'])", "pd.Series(['1.0', 'NaN', nan, '2.0'])", "pd.Series([None, 'NaT', '2021-03-01'])",
